@@ -261,6 +261,24 @@ func (d *Driver) RunBinaryLimited(deadline time.Duration, asBytes int64, args ..
 	return o
 }
 
+// RunBinaryFree executes the real binary with all CPUs (the workers themselves run with
+// GOMAXPROCS=1) under a deadline; Horizon is set when it had to be killed.
+func (d *Driver) RunBinaryFree(deadline time.Duration, args ...string) *Outcome {
+	ctx, cancel := context.WithTimeout(context.Background(), deadline)
+	defer cancel()
+	c := exec.CommandContext(ctx, BinaryPath, args...)
+	for _, kv := range os.Environ() {
+		if !strings.HasPrefix(kv, "GOMAXPROCS=") {
+			c.Env = append(c.Env, kv)
+		}
+	}
+	o := d.runCmd(c)
+	if ctx.Err() != nil {
+		o.Horizon = true
+	}
+	return o
+}
+
 // RunBinary executes the real binary in the driver's scratch directory.
 func (d *Driver) RunBinary(args ...string) *Outcome {
 	return d.runCmd(exec.Command(BinaryPath, args...))
